@@ -8,6 +8,8 @@ import (
 	"github.com/truora/minidyn/types"
 )
 
+var hashKeyEscaper = strings.NewReplacer(`\`, `\\`, ".", `\.`)
+
 type keySchema struct {
 	HashKey   string
 	RangeKey  string
@@ -38,7 +40,10 @@ func (ks keySchema) getKeyValue(attrs map[string]string, item map[string]*types.
 		return hashKeyStr, nil
 	}
 
-	key = append(key, hashKeyStr)
+	// the first plain '.' of the key separates the hash value from the range value:
+	// the ones inside the hash value are escaped so that two different pairs never render the same key.
+	// The range value stays as it is, it decides the order inside a partition.
+	key = append(key, hashKeyEscaper.Replace(hashKeyStr))
 
 	val, err = getItemValue(item, ks.RangeKey, attrs[ks.RangeKey])
 	if err != nil {
